@@ -130,7 +130,7 @@ func minI(a, b int) int {
 }
 
 func c01(c *wk.Ctx) {
-	c.Note("rule", "streams: rt = random valid header x payload (edge and random lengths) written with Message.Write, compared byte-for-byte with the reference layout, read back with Message.Read under several fragmentation plans (fixed chunk 1..64, random chunks, all-at-once, final chunk delivered with io.EOF) with exact consumption accounting; seq = 1..20 messages back to back under a random fragmentation then a final read that must fail; bad = invalid headers (magic, version, type, over-limit size) that must be refused with <=28 bytes consumed; big = messages of 1 MiB / limit-1 / limit. A case is non-trivial and distinct by (stream, payload length class, message type, fragmentation plan, verdict class).")
+	c.Note("rule", "streams: rt = random valid header x payload (edge and random lengths) written with Message.Write, compared byte-for-byte with the reference layout, read back with Message.Read under several fragmentation plans (fixed chunk 1..64, random chunks, all-at-once, final chunk delivered with io.EOF) with exact consumption accounting; seq = 1..20 messages back to back under a random fragmentation (once into fresh Message values, once into one reused Message variable) then a final read that must fail; bad = invalid headers (magic, version, type, over-limit size) that must be refused with <=28 bytes consumed; big = messages of 1 MiB / limit-1 / limit. A case is non-trivial and distinct by (stream, payload length class, message type, fragmentation plan, verdict class).")
 	plans := []fragPlan{
 		{"all", func(*rand.Rand) func(int) int { return planAll() }, false},
 		{"all+eof", func(*rand.Rand) func(int) int { return planAll() }, true},
@@ -140,11 +140,21 @@ func c01(c *wk.Ctx) {
 		{"one", func(*rand.Rand) func(int) int { return planFixed(1) }, false},
 	}
 	maxRand := c.Pick(16384, 65536)
+	// reuse: the caller reads the whole sequence into ONE Message variable (what a read loop does)
+	reuse := false
 	readBack := func(stream string, i int, wire []byte, hs []refcodec.Header, ps [][]byte, name string, plan func(int) int, eof bool) {
 		r := &fragReader{data: wire, plan: plan, eofWithData: eof}
 		expect := 0
+		var shared qnet.Message
+		if reuse {
+			name += "+reused"
+		}
 		for k := range hs {
-			var m qnet.Message
+			var fresh qnet.Message
+			m := &fresh
+			if reuse {
+				m = &shared
+			}
 			err := m.Read(r)
 			expect += 28 + len(ps[k])
 			if err != nil {
@@ -152,7 +162,7 @@ func c01(c *wk.Ctx) {
 					map[string]interface{}{"header": hs[k], "len": len(ps[k]), "plan": name})
 				return
 			}
-			if d := sameMsg(&m, hs[k], ps[k]); d != "" {
+			if d := sameMsg(m, hs[k], ps[k]); d != "" {
 				c.Viol(stream, i, "read=differs", fmt.Sprintf("message %d/%d read back differs (plan %s): %s", k+1, len(hs), name, d),
 					map[string]interface{}{"header": hs[k], "len": len(ps[k]), "plan": name})
 				return
@@ -229,7 +239,10 @@ func c01(c *wk.Ctx) {
 		pl := plans[rng.Intn(len(plans))]
 		readBack("seq", i, wire, hs, ps, pl.name, pl.mk(rng), pl.eof)
 		k := 1 + rng.Intn(64)
+		reuse = true
 		readBack("seq", i, wire, hs, ps, fmt.Sprintf("fixed%d", k), planFixed(k), rng.Intn(2) == 0)
+		reuse = false
+		c.Count("sequences_read_into_one_reused_message", 1)
 		c.Nontrivial(wk.Hash64("seq", n, pl.name, k))
 		if c.WantSample() && i%97 == 0 {
 			c.Sample(map[string]interface{}{"stream": "seq", "messages": n, "total_bytes": len(wire), "plan": pl.name, "fixed_chunk": k})
